@@ -33,6 +33,16 @@ DISPATCH_SETTINGS = [("0", "E-:-:-:-:-"), ("2", "-"), ("1", "E-:-:s:e:F"), ("-",
                      ("0", "E676d:-:-:t:F")]
 
 
+def random_extra(rnd):
+    """extra request settings with every field independently absent / present, values of every shape"""
+    host = rnd.choice(["-", "-", "676d", "", "6d632e6578616d706c652e636f6d2e", "2e", "4d43", "c3a9" * rnd.choice([1, 128]), "61" * rnd.choice([255, 256])])
+    pv = rnd.choice(["-", "-", "-1", "0", "47", "760", "2147483647", "-2147483648", "128", "16384"])
+    gp = rnd.choice(["-", "-", "s", "t", "e"])
+    gr = rnd.choice(["-", "-", "s", "t", "e"])
+    ck = rnd.choice(["-", "-", "T", "F"])
+    return f"E{host}:{pv}:{gp}:{gr}:{ck}"
+
+
 def run(rep, tier, seed, replay=None):
     if replay is not None:
         vlib.correspond(rep, replay, oracle=netprops.crash_oracle, trivial=netprops.trivial, tag="c14")
@@ -92,7 +102,8 @@ def run(rep, tier, seed, replay=None):
                     groups.append(grp)
             # the settings rules of the Valve arm (extra settings replace the definition's; timeout settings give the retry count)
             if raw is lines[0]:
-                for j, (r, extra) in enumerate(DISPATCH_SETTINGS):
+                more = [(rnd.choice(["-", "0", "1", "3"]), random_extra(rnd)) for _ in range(4 if tier == "quick" else 40)]
+                for j, (r, extra) in enumerate(DISPATCH_SETTINGS + more):
                     k += 1
                     cases.append(f"{d['id']}_{k}dx dispatch {d['id']} {'-' if j % 2 else d['port'] + j} {r} {extra} "
                                  + " ".join([base.fmt_script()] + base.opts))
@@ -152,7 +163,8 @@ def run(rep, tier, seed, replay=None):
                     grp["dmodule"] = f"{gid}dm dispatch-module {(m or d)['id']} {port} {script_opts}" if has_module else None
                     cases += [x for x in (grp["dgeneric"], grp["dmodule"]) if x]
             if v is valid[0]:
-                for j, (r, extra) in enumerate(DISPATCH_SETTINGS):
+                more = [(rnd.choice(["-", "0", "1", "3"]), random_extra(rnd)) for _ in range(4 if tier == "quick" else 40)]
+                for j, (r, extra) in enumerate(DISPATCH_SETTINGS + more):
                     k += 1
                     cases.append(f"{d['id']}_{k}dx dispatch {d['id']} {'-' if j % 2 else d['port'] + j} {r} {extra} "
                                  + " ".join([base.fmt_script()] + base.opts))
